@@ -9,7 +9,7 @@ FILES = ['src/rate/rate_high.rs', 'src/rate/rate_low.rs', 'src/rate/rate_default
          'src/engine.rs']
 ALL = ['C03', 'C04', 'C05', 'C06', 'C07', 'C08', 'C09', 'C10', 'C11', 'C12', 'C14', 'C16', 'C17']
 REL = [(' < ', ' <= '), (' <= ', ' < '), (' > ', ' >= '), (' >= ', ' > '), (' == ', ' != '), (' != ', ' == ')]
-OUT = '/tmp/mutsweep'
+OUT = os.environ.get('SWEEP_OUT', '/tmp/mutsweep')
 os.makedirs(OUT, exist_ok=True)
 
 
@@ -46,6 +46,19 @@ def gen():
                 if len(ms) == 1 and 'fn ' not in code:
                     m = ms[0]
                     muts.append((f, i, 'swap', code[:m.start()] + b + code[m.end():]))
+            if os.environ.get('SWEEP_SET') == '2':
+                if '"' in code:
+                    continue
+                for m in re.finditer(r'(?<![\w.])(\d+)(?![\w.])', code):
+                    v = int(m.group(1))
+                    if v in (0, 1) or 'const ' in code or code.strip().startswith('#'):
+                        continue
+                    for nv in (v - 1, v + 1, v * 2):
+                        muts.append((f, i, 'lit', code[:m.start()] + str(nv) + code[m.end():]))
+                for a, b in ((' && ', ' || '), (' || ', ' && '), ('::min(', '::max('), ('::max(', '::min('), ('.min(', '.max('), ('.max(', '.min('),
+                             ('.next_power_of_two()', ''), (' / 2', ' / 4'), (' * 2', ' * 4'), (' << 2', ' << 1'), (' >> 8', ' >> 4'), (' + ', ' - '), (' - ', ' + ')):
+                    for m in re.finditer(re.escape(a), code):
+                        muts.append((f, i, 'op2', code[:m.start()] + b + code[m.end():]))
     return muts
 
 
@@ -95,6 +108,8 @@ def lane(slot, q, lock, outf):
 if __name__ == '__main__':
     n = int(sys.argv[1]) if len(sys.argv) > 1 else 200
     muts = gen()
+    if os.environ.get('SWEEP_SET') == '2':
+        muts = [m for m in muts if m[2] in ('lit', 'op2')]
     random.Random(7).shuffle(muts)
     print('generated', len(muts), 'taking', n)
     off = int(sys.argv[2]) if len(sys.argv) > 2 else 0
